@@ -4,6 +4,9 @@
 From TV Require Import Prelude.Str Prelude.PosixPath Prog.Prog Cmd.Put.
 Open Scope N_scope.
 
+(* lib/trash_dirs.py home_trash_dir_path_from_home *)
+Definition home_trash_dir_path_from_home (home : str) : str := home ++ $"/.local/share/Trash".
+
 Inductive scan_event :=
 | Found (path volume : str)
 | SkippedNotSticky (path : str)
@@ -75,10 +78,22 @@ Definition scan_trash_dirs (env : environ) (uid : N) (s : S) : prog S :=
   s1 <- fold_prog (home_trash_dir_path_from_env env) (fun s p => handle s (Found p [c_slash])) s ;;
   for_each_volume env (scan_volume uid) s1.
 
-(* TrashDirsSelector.select (without --all-users) *)
-Definition select_trash_dirs (user_dirs : list str) (env : environ) (uid : N) (s : S) : prog S :=
-  s1 <- (match user_dirs with [] => scan_trash_dirs env uid s | _ => Ret s end) ;;
-  fold_prog user_dirs (fun s d => v <- volume_of d ;; handle s (Found d v)) s1.
+(* lib/user_info.py AllUsersInfoProvider + TrashDirsScanner.scan_trash_dirs: for every entry (pw_dir, pw_uid) of the
+   password database, in its order: the home trash of that home directory, then every volume for that uid.  The
+   database (pwd.getpwall(), read once) is an input of the command like the environment and the uid. *)
+Definition scan_all_users (pw : list (str * N)) (env : environ) (s : S) : prog S :=
+  fold_prog pw (fun s u => s1 <- handle s (Found (home_trash_dir_path_from_home (fst u)) [c_slash]) ;;
+                           for_each_volume env (scan_volume (snd u)) s1) s.
+
+(* TrashDirsSelector.select; all_users = Some (password database) when --all-users was given: the directories
+   named with --trash-dir are then ignored *)
+Definition select_trash_dirs (all_users : option (list (str * N))) (user_dirs : list str) (env : environ) (uid : N) (s : S) : prog S :=
+  match all_users with
+  | Some pw => scan_all_users pw env s
+  | None =>
+    s1 <- (match user_dirs with [] => scan_trash_dirs env uid s | _ => Ret s end) ;;
+    fold_prog user_dirs (fun s d => v <- volume_of d ;; handle s (Found d v)) s1
+  end.
 End Scanner.
 
 (* lib/trash_dir_reader.py (fixed: '.trashinfo', '..trashinfo', '...trashinfo' are not entries: the payload
